@@ -112,6 +112,17 @@ def scenarios():
     add("raw-config-7byte", {}, ("raw_command", (b"config get cluster", b"\n\r\nEND\r\n"), {}),
         None, server_kw={"cluster_config": (12, nodes)})
     add("raw-stats-END", {}, ("raw_command", (b"stats", b"END\r\n"), {}), None)
+    # long lines (a reader that counts pieces instead of bytes), receive-size multiples through the token reader
+    longkey = "K" * 240
+    add("get-long-key", {longkey.encode(): (b"v", 0)}, ("get", (longkey,), {}), ("ret", b"v"))
+    add("get_many-long-keys", {longkey.encode(): (b"v", 0), b"J" * 200: (b"w", 1)},
+        ("get_many", ([longkey, b"J" * 200],), {}), ("ret", {longkey: b"v", b"J" * 200: b"w"}))
+    add("set-long-server-error", {}, ("set", ("a", b"v"), {}), ("exc", "MemcacheServerError"), fault=("rline", 0, "long_server_error"))
+    add("version-long", {}, ("version", (), {}), ("ret", b"1.6.21-" + b"x" * 120), server_kw={"version": b"1.6.21-" + b"x" * 120})
+    for n in (4096 - 19, 4096, 5000, 8192 - 19, 8192):
+        val = BIG[4096][:n] if n <= 4096 else (BIG[8192] + BIG[4096])[:n]
+        hdr = b"VALUE big 0 %d\r\n" % n
+        add("raw-get-big-%d" % n, {b"big": (val, 0)}, ("raw_command", (b"get big", b"END\r\n"), {}), ("ret", hdr + val + b"\r\n"))
     add("raw-config-ERROR-7byte", {}, ("raw_command", (b"config get cluster", b"\n\r\nEND\r\n"), {}),
         ("exc", "MemcacheUnknownCommandError"))
     add("raw-get-END-server_error", {b"h": (b"hello", 0)}, ("raw_command", (b"get h", b"END\r\n"), {}),
@@ -198,7 +209,8 @@ def cutsets(L, tier, rng, scenario_name):
             k = rng.randint(4, min(12, L - 1))
             yield tuple(sorted(rng.sample(positions, k))), ()
         # RECV_SIZE-aligned
-        al = sorted({p for k in range(1, L // 4096 + 2) for p in (4096 * k - 1, 4096 * k, 4096 * k + 1) if 0 < p < L})
+        al = sorted({p for k in range(1, L // 4096 + 2) for p in (4096 * k - 1, 4096 * k, 4096 * k + 1,
+                                                                   L - 4096 * k - 1, L - 4096 * k, L - 4096 * k + 1) if 0 < p < L})
         for r in range(1, min(len(al), 4) + 1):
             for c in itertools.combinations(al, r):
                 yield c, ()
